@@ -1,7 +1,11 @@
 """Term <-> Python conversion shared by C05 / C04 (Values*.tla): annotation terms to real annotations, value terms
 to real values, stored attributes back to value terms."""
+import datetime as _dt
 import enum
+import pathlib
+import re
 import typing
+import uuid
 from collections.abc import Mapping, Sequence, Set
 from types import MappingProxyType
 
@@ -21,9 +25,21 @@ class Inner2(Inner):
     pass
 
 
+def _plain_function(x=0):
+    return x
+
+
+# annotations validated by a plain isinstance check, and one value of each
+PLAIN = {
+    "complex": (complex, 1j), "range": (range, range(3)), "uuid": (uuid.UUID, uuid.UUID(int=7)),
+    "date": (_dt.date, _dt.date(2020, 1, 2)), "datetime": (_dt.datetime, _dt.datetime(2020, 1, 2, 3, 4)),
+    "time": (_dt.time, _dt.time(3, 4)), "timedelta": (_dt.timedelta, _dt.timedelta(seconds=5)),
+    "timezone": (_dt.timezone, _dt.timezone.utc), "path": (pathlib.Path, pathlib.Path("/x/y")),
+    "pattern": (re.Pattern, re.compile("a+")),
+}
 STR = {1: "a", 2: "bc", 0: ""}
 KIND_ORDER = ["none", "bool", "int", "float", "str", "bytes", "missing", "enumv", "state", "state2", "list", "tuple",
-              "set", "fset", "dict", "pair", "other"]
+              "set", "fset", "dict", "pair", *PLAIN, "func", "cls", "other"]
 
 
 def A(k, xs=(), vs=()):
@@ -40,6 +56,12 @@ def ann_to_py(a):
         return None
     if k in ("bool", "int", "float", "str", "bytes"):
         return {"bool": bool, "int": int, "float": float, "str": str, "bytes": bytes}[k]
+    if k in PLAIN:
+        return PLAIN[k][0]
+    if k == "callable":
+        return typing.Callable[[int], int]
+    if k == "type":
+        return type
     if k == "any":
         return typing.Any
     if k == "missing":
@@ -88,6 +110,12 @@ def val_to_py(v):
         return b"a"
     if k == "missing":
         return MISSING
+    if k in PLAIN:
+        return PLAIN[k][1]
+    if k == "func":
+        return _plain_function
+    if k == "cls":
+        return Inner
     if k == "enumv":
         return E.one
     if k == "state":
@@ -117,6 +145,13 @@ def py_to_val(o):
         return V("none")
     if o is MISSING:
         return V("missing")
+    if o is _plain_function:
+        return V("func", 1)
+    if o is Inner:
+        return V("cls", 1)
+    for kind in ("datetime", *PLAIN):      # datetime before date: it is a subclass
+        if type(o) is type(PLAIN[kind][1]) or (kind == "path" and isinstance(o, pathlib.Path)):
+            return V(kind, 1) if o == PLAIN[kind][1] else V("other", repr(o)[:60])
     if isinstance(o, bool):
         return V("bool", int(o))
     if isinstance(o, int):
